@@ -83,7 +83,7 @@ type Ctx struct {
 	outPath    string
 }
 
-const maxDistinct = 4 << 20
+const maxDistinct = 3 << 20 // per child; beyond it distinct counting is conservative (stops adding)
 const maxViolationsKept = 300
 const abortAfterViolations = 200
 
